@@ -194,6 +194,28 @@ func execOp(rig *Rig, o Op) Outcome {
 		}
 		sort.Strings(names)
 		return Outcome{OK: true, Names: names}
+	case "hcreate":
+		h, err := f.Create(o.A)
+		if err != nil {
+			return failOut("open", err)
+		}
+		rig.heldHandle = h
+	case "hwrite":
+		if rig.heldHandle == nil {
+			return failOut("harness", errors.New("no handle"))
+		}
+		if _, err := rig.heldHandle.Write(o.content()); err != nil {
+			return failOut("write", err)
+		}
+	case "hclose":
+		if rig.heldHandle == nil {
+			return failOut("harness", errors.New("no handle"))
+		}
+		err := rig.heldHandle.Close()
+		rig.heldHandle = nil
+		if err != nil {
+			return failOut("close", err)
+		}
 	case "symlink":
 		l, ok := f.(afero.Linker)
 		if !ok {
@@ -259,6 +281,30 @@ func applyModel(m *Model, o Op) (MOut, Outcome) {
 				return fail("write refused"), Outcome{}
 			}
 		}
+		return ok(), Outcome{}
+	case "hcreate":
+		if mo, pok := m.parentOK(o.A); !pok {
+			return mo, Outcome{}
+		}
+		mo, n := m.Open(o.A, os.O_RDWR|os.O_CREATE|os.O_TRUNC, 0o666)
+		if !mo.OK {
+			return mo, Outcome{}
+		}
+		m.held = NewMHandle(n, os.O_RDWR)
+		n.OpenW = true
+		return ok(), Outcome{}
+	case "hwrite":
+		if m.held == nil {
+			return fail("no handle"), Outcome{}
+		}
+		m.held.DoWrite(o.content()) // POSIX: the handle refers to the file itself, wherever it has been renamed to (or unlinked)
+		return ok(), Outcome{}
+	case "hclose":
+		if m.held == nil {
+			return fail("no handle"), Outcome{}
+		}
+		m.held.N.OpenW = false
+		m.held = nil
 		return ok(), Outcome{}
 	case "read":
 		n, mo := m.lookup(o.A)
